@@ -4,6 +4,7 @@ import (
 	"fmt"
 
 	"github.com/vicanso/pike/cache"
+	"github.com/vicanso/pike/config"
 	"pikeverif/internal/hx"
 )
 
@@ -14,7 +15,7 @@ func init() { families["lru"] = runLRU }
 func runLRU(seed uint64, n int, tier string, out string, replay string) {
 	rnd := hx.NewRand(seed)
 	sum := hx.NewSummary("lru", seed)
-	sum.Rule = "one case = one dispatcher size S with a generated op sequence (92% get-or-create / 8% remove; half of the accesses on a hot tenth of the population); sizes: every S in 1..n plus boundary sizes (1023,1024,1025, <=0 defaults); for large S the key population is rejection-sampled into 3 shards so that evictions occur; non-trivial = more entries were created than were ever resident (an eviction or removal + re-creation happened); distinct by (S, #ops, #entries created)"
+	sum.Rule = "one case = one dispatcher size S with a generated op sequence (92% get-or-create / 8% remove; half of the accesses on a hot tenth of the population); sizes: every S in 1..n plus boundary sizes (1023,1024,1025, <=0 defaults); for large S the key population is rejection-sampled into 3 shards so that evictions occur; non-trivial = more entries were created than were ever resident (an eviction or removal + re-creation happened); distinct by (S, #ops, #entries created); plus 8 reload scenarios (a registered cache re-applied under the same name with a smaller / larger / equal size, then 3x the larger size + 500 distinct keys: resident keys must stay within the larger size)"
 	header := "From Coq Require Import List NArith ZArith.\nImport ListNotations.\nFrom Pike Require Import Model.Dispatcher Corr.C11Corr.\nFrom PikeRun Require Import Consts.\n"
 	w := hx.NewCaseWriter(out, "lru", header, "list lru_case", "check_cases Consts.disp_consts", 8, sum)
 	distinct := hx.NewDistinct()
@@ -133,6 +134,39 @@ func runLRU(seed uint64, n int, tier string, out string, replay string) {
 		}
 		sum.Sample(map[string]interface{}{"size": size, "ops": nops, "entries_created": len(ids), "max_resident": maxRes})
 	}
+	// a cache reloaded under the same name with another size (cache settings are documented as restart-only:
+	// the running dispatcher may keep its size, but the number of resident keys must stay within the larger
+	// of the sizes it was ever configured with)
+	for _, p := range [][2]int{{64, 6}, {2048, 100}, {64, 16}, {8, 3}, {16, 1024}, {100, 100}, {1024, 7}, {6, 64}} {
+		cache.ResetDispatchers(nil) // drop the cache of the previous scenario
+		cache.ResetDispatchers([]config.CacheConfig{{Name: "rz", Size: p[0], HitForPass: "5m"}})
+		d := cache.GetDispatcher("rz")
+		for k := 0; k < 2*p[0]; k++ {
+			d.GetHTTPCache([]byte(fmt.Sprintf("GET warm.example /w/%d", k)))
+		}
+		cache.ResetDispatchers([]config.CacheConfig{{Name: "rz", Size: p[1], HitForPass: "5m"}})
+		d = cache.GetDispatcher("rz")
+		bound := p[0]
+		if p[1] > bound {
+			bound = p[1]
+		}
+		worst := 0
+		for k := 0; k < 3*bound+500; k++ {
+			d.GetHTTPCache([]byte(fmt.Sprintf("GET after.example /a/%d", k)))
+			res := 0
+			for _, l := range d.VerifResident() {
+				res += l
+			}
+			if res > worst {
+				worst = res
+			}
+		}
+		sum.Count("reload-resize")
+		if worst > bound {
+			sum.ImplViolations = append(sum.ImplViolations, map[string]interface{}{"property": "C11", "kind": "resident-exceeds-size-after-reload", "size_before": p[0], "size_after": p[1], "max_resident": worst, "requests_after_reload": 3*bound + 500})
+		}
+	}
+	cache.ResetDispatchers(nil)
 	w.Flush()
 	sum.DistinctNontrivial = distinct.Len()
 	sum.Write(out)
